@@ -511,7 +511,7 @@ def check_C10(chk):
                 "single-byte marker, sampled pairs after their marker incl. trail byte 0x5E followed by marker letters, marker switches in all "
                 "orders, ^^ / ^8 / BOM-looking prefixes) and all strings up to the bound over a 13-class alphabet; to_lossy_string must equal "
                 "CpDecode on defined bytes and to_lossy_bytes is accepted by postcondition (CpDecode(bytes) = text with '?' for characters in no "
-                "page; ASCII byte for byte); random text and bytes for totality.", maxlen=4 if chk.tier == "thorough" else 3)
+                "page; ASCII byte for byte); random text and bytes for totality.", maxlen=5 if chk.tier == "thorough" else 4)
     # the complete double-byte tables (every pair on which the family's independent tables agree): generated at check time,
     # LfsText / Trace_Text are evaluated against them in a scratch copy of the specification directory
     import shutil, subprocess
